@@ -33,10 +33,25 @@ VIEW_FUNCS = (
 
 
 def strip_ref(ty):
+    """type behind any number of references (lifetimes in any of rustc's debug spellings are skipped)"""
     ty = ty.strip()
-    m = re.match(r"^&'?\{?\w*\}?\s*(mut\s+)?(.*)$", ty)
     while ty.startswith('&'):
-        ty = re.sub(r"^&('\{?[\w^.()~:\[\]# ]*\}?\s+)?(mut\s+)?", '', ty, count=1)
+        ty = ty[1:].lstrip()
+        if ty.startswith("'"):
+            depth = 0
+            i = 0
+            while i < len(ty):
+                ch = ty[i]
+                if ch in '([{':
+                    depth += 1
+                elif ch in ')]}':
+                    depth -= 1
+                elif ch == ' ' and depth == 0:
+                    break
+                i += 1
+            ty = ty[i:].lstrip()
+        if ty.startswith('mut '):
+            ty = ty[4:].lstrip()
     return ty
 
 
